@@ -174,6 +174,12 @@ def cases(tier):
             lambda A, s=s, p=p, d=d, bias=bias: R.conv(A["x"], A["w"], A["b"] if bias else None, s, p, d, 1))
     add("nn.functional.conv1d", {"note": "channel mismatch must raise"}, [("x", (1, 2, 4), ANY), ("w", (1, 3, 2), ANY)], lambda T: NF.conv1d(T["x"], T["w"]),
         lambda A: R.conv(A["x"], A["w"], None, 1, 0, 1, 1))
+    # a channel count of 1 on either side must not be broadcast against the other side's channels (contractions written with einsum / broadcasting products accept it silently)
+    for cx, cw in ((3, 1), (1, 3), (1, 2), (2, 1)):
+        add("nn.functional.conv1d", {"note": "channel mismatch must raise", "C_x": cx, "C_w": cw}, [("x", (1, cx, 4), ANY), ("w", (2, cw, 2), ANY)], lambda T: NF.conv1d(T["x"], T["w"]),
+            lambda A: R.conv(A["x"], A["w"], None, 1, 0, 1, 1))
+        add("nn.functional.conv2d", {"note": "channel mismatch must raise", "C_x": cx, "C_w": cw}, [("x", (1, cx, 3, 3), ANY), ("w", (2, cw, 2, 2), ANY)], lambda T: NF.conv2d(T["x"], T["w"]),
+            lambda A: R.conv(A["x"], A["w"], None, (1, 1), (0, 0), (1, 1), 2))
     add("nn.functional.conv1d", {"note": "wrong input rank must raise"}, [("x", (2, 4), ANY), ("w", (1, 2, 2), ANY)], lambda T: NF.conv1d(T["x"], T["w"]),
         lambda A: R.conv(A["x"], A["w"], None, 1, 0, 1, 1))
     # ---- conv2d / pools / unfold / fold on the covering product of per-axis geometries, int and tuple arguments
